@@ -254,7 +254,9 @@ class _ChangeComputer:
         else:
             collector = codeanalyze.ChangeCollector(self.source)
             last_end = -1
-            for match in self.matches:
+            # in source order: the finder reports the matches of a nested
+            # block after those of the blocks around it
+            for match in sorted(self.matches, key=lambda match: match.get_region()):
                 start, end = match.get_region()
                 if start < last_end:
                     if not self._is_expression():
